@@ -12,6 +12,8 @@ import Hpv.Onto
 import Hpv.Sim
 import Hpv.Resnik
 import Hpv.Sorting
+import Hpv.Ic
+import Hpv.Validate
 open Lean
 
 namespace Drv
@@ -292,6 +294,64 @@ def argsortReplay (j : Json) : Except String Json := do
   let trace ← j.getObjValAs? (List (Nat × Nat)) "trace"
   return toJson (Hpv.Sorting.argsort ids trace)
 
+/-! ### C09 -/
+section C09
+open Hpv.GM Hpv.Ic
+
+def icCounts (j : Json) : Except String Json := do
+  let edges ← (← j.getObjValAs? (Array Json) "edges").mapM edgeOfJson
+  let terms ← j.getObjValAs? (List String) "terms"
+  let itemsJ ← j.getObjValAs? (List (List (String × Bool))) "items"
+  let pseudo ← j.getObjValAs? Bool "pseudo"
+  let modRoot : Option String := (j.getObjValAs? String "module").toOption
+  match build keyOrd owlThing .indexed edges.toList with
+  | .error e => return Json.mkObj [("build_err", errName e)]
+  | .ok g =>
+    let anc := closureFn g .ancestors true
+    let mod : Option (List (List Nat)) := modRoot.map (fun r => closureFn g .descendants true (strToCps r))
+    let items := itemsJ.map (fun anns => anns.map (fun p => (strToCps p.1, p.2)))
+    let cs := counts anc mod (terms.map strToCps) pseudo items
+    let popKey : List Nat := match modRoot with
+      | some r => strToCps r
+      | none => match g.root with
+        | .ok k => keyCps k
+        | .error _ => []
+    return Json.mkObj [("counts", toJson (cs.map fun p => Json.arr #[cpsToStr p.1, toJson p.2])),
+      ("population", toJson (lookupCount cs popKey))]
+end C09
+
+/-! ### C11 -/
+section C11
+open Hpv.GM Hpv.Validate
+
+def validatorOf : String → Except String Validator
+  | "propagation" => pure .propagation | "abnormality" => pure .abnormality | "obsolete" => pure .obsolete
+  | s => throw s!"unknown validator {s}"
+
+def levelName : Level → String
+  | .warning => "WARNING" | .error => "ERROR"
+
+def categoryName : Category → String
+  | .propagation => "annotation_propagation" | .abnormality => "phenotypic_abnormality_descendant"
+  | .obsolete => "obsolete_term_id_is_used"
+
+def validateOp (j : Json) : Except String Json := do
+  let edges ← (← j.getObjValAs? (Array Json) "edges").mapM edgeOfJson
+  let ts ← (← j.getObjValAs? (List Json) "terms").mapM termOfJson
+  let pa ← j.getObjValAs? String "pa"
+  let itemsJ ← j.getObjValAs? (List (String × Bool)) "items"
+  let vs ← (← j.getObjValAs? (List String) "validators").mapM validatorOf
+  match build keyOrd owlThing .indexed edges.toList with
+  | .error e => return Json.mkObj [("build_err", errName e)]
+  | .ok g =>
+    let o : Onto (List Nat) := ⟨fun k => (Hpv.Onto.getTerm ts k).map (·.id), closureFn g .ancestors false⟩
+    let items : List (Feature (List Nat)) := itemsJ.map fun p => ⟨strToCps p.1, p.2⟩
+    match validateAll o (strToCps pa) vs items with
+    | .error e => return Json.mkObj [("err", errName e)]
+    | .ok rs => return Json.mkObj [("ok", toJson (rs.map fun r => Json.arr #[levelName r.level, categoryName r.category,
+        toJson (r.ids.map cpsToStr)]))]
+end C11
+
 def handle (j : Json) : Except String Json := do
   let op ← j.getObjValAs? String "op"
   match op with
@@ -302,6 +362,8 @@ def handle (j : Json) : Except String Json := do
   | "graph.batch" => graphBatch j
   | "onto.lookup" => ontoLookup j
   | "sim.hist" => simHist j
+  | "validate" => validateOp j
+  | "ic.counts" => icCounts j
   | "argsort.replay" => argsortReplay j
   | "resnik.precalc" => resnikPrecalc j
   | "meta.codec" => metaCodec j
